@@ -16,6 +16,8 @@ CONFIG = {
     "assumptions": [
         "the parsable entries of the index are in non-decreasing creation-time order and no two of them share (time, name[2:]) (SortedValid, UniqueKeys)",
         "the cached article count is at most the number of records in the file (find_stale_total); a larger count is modelled and compared but outside the property",
-        "page walk: no look-ahead element is unparsable (known finding walk:unparsable-lookahead); at the bbs level creation times are 10-digit and below 2^31 (the article-id domain of C13)",
+        "page walk: no look-ahead element is unparsable (LookaheadOKAsc/Desc; known finding walk:unparsable-lookahead shows the walk stops otherwise); the cached total equals the record count",
+        "bbs level (pagewalk_bbs, cursor_roundtrip_*): every name is unparsable or in the article-id domain of C13 (M./G./.d + 10-digit time below 2^31 + .A. + 3 upper-case hex digits) (NamesOK)",
+        "GetRecord: an entry carrying the looked-up name key carries the looked-up time (hkt; true of real names, whose key contains the time digits)",
     ],
 }
